@@ -2,13 +2,14 @@ SPECIFICATION Spec
 CONSTANTS
   EncoderBuffer = "fresh"
   EncodeVar = "own"
-  Encoders = {"application/json", "application/x-www-form-urlencoded"}
+  Encoders = {"application/json", "application/problem+json", "application/x-www-form-urlencoded"}
+  NoEncoder = "forward"
   CloseBinding = "at_return"
   Small = FALSE
-  MTs = {"application/json", "application/x-www-form-urlencoded"}
+  MTs = {"application/json", "application/problem+json", "application/x-www-form-urlencoded"}
   MaxV1 = 2
   MaxV2 = 1
-  MaxR1 = 1
+  MaxR1 = 2
   MaxR2 = 1
 INVARIANTS RequestsAtRestOK
 CHECK_DEADLOCK FALSE
